@@ -30,10 +30,16 @@ func exactProperty(t *testing.T, sp exactSpec) {
 	checkWitnesses(t, id)
 	checkRegressions(t, id)
 	ev.Rule(id, sp.rule)
-	cfg := engine.DefaultConfig()
 	binEvery := 60
 	n := 0
 	rapid.Check(t, func(rt *rapid.T) {
+		// a fifth of the programs is analysed with scan-tests on: in-package and
+		// external test files are then analysed files like any other
+		cfg := engine.DefaultConfig()
+		if rapid.IntRange(0, 9).Draw(rt, "scanTests") < 2 {
+			cfg.ScanTests = true
+			ev.Class(id, "analysed with scan-tests on")
+		}
 		opts := proggen.GenOpts{Focus: sp.focus, MinPkgs: 1, MaxPkgs: 4, TestFiles: true, XTest: true, Aliases: true}
 		if rapid.IntRange(0, 9).Draw(rt, "rich") < 3 {
 			opts.Rich = true
@@ -95,7 +101,11 @@ func crossCheckBinary(p *proggen.Prog, cfg engine.Config, inproc []engine.Diag, 
 	if err := engine.WriteToDisk(p.ToEngine(), dir); err != nil {
 		return ""
 	}
-	pr := engine.RunBinary(dir, nil, nil, "./...")
+	var flags []string
+	if cfg.ScanTests {
+		flags = []string{"--config.scan-tests"}
+	}
+	pr := engine.RunBinary(dir, flags, nil, "./...")
 	if len(pr.Panics) > 0 {
 		return "binary crashed: " + pr.Panics[0]
 	}
